@@ -478,7 +478,8 @@ Definition z_text : bytes :=
 		                kcal        130          0 =       130
 		                salt          0         -4 =        -4
 ".
-Definition z_first : pnode ZNum := {| header := b "2021/03/01"; elems := [(b "soup", 2%Z); (b "bread", 1%Z)]; meta := None |}.
+Definition z_first : pnode ZNum :=
+  @Build_pnode ZNum (b "2021/03/01") [(b "soup", 2%Z); (b "bread", 1%Z)] None.
 Definition z_err : perr := Conversion (b "five") 5%N (b "  salt five").
 
 Example z_register_parse_error :
